@@ -25,23 +25,27 @@ MUT=$(go test -count=1 ./$PKG/ 2>&1 | tail -1)
 for d in $DEMOS; do rm "$WT/$PKG/$d"; done
 echo "clean-demo: $CLEAN"; echo "build: ${BUILD:-ok}"; echo "suite-failures: ${SUITE:-none}"; echo "mutant-demo: $MUT"
 cd /verif
-OUT=$(VERIF_REPO="$WT" ./run "$PROP" "$TIER" 2>&1)
+CHK="${CHECK:-$PROP}"
+OUT=$(VERIF_REPO="$WT" ./run "$CHK" "$TIER" 2>&1)
 RC=$?
 echo "$OUT" | grep -E "VIOLATION|SUMMARY|INCONCLUSIVE" | cut -c1-260 | head -6
 echo "check exit: $RC"
 DEST="/verif/seeded/$PROP-$K"
 mkdir -p "$DEST"
 cp "$SRC/patch.diff" "$DEST/"; for d in $DEMOS; do cp "$SRC/$d" "$DEST/"; done; [ -f "$SRC/README.md" ] && cp "$SRC/README.md" "$DEST/"
-python3 - "$DEST" "$PROP" "$K" "$PKG" "$BASE" "$CLEAN" "$MUT" "${SUITE:-none}" "$RC" "$TIER" <<'PY'
+python3 - "$DEST" "$PROP" "$K" "$PKG" "$BASE" "$CLEAN" "$MUT" "${SUITE:-none}" "$RC" "$TIER" "$CHK" <<'PY'
 import json,sys,os,re
-dest,prop,k,pkg,base,clean,mut,suite,rc,tier=sys.argv[1:]
+dest,prop,k,pkg,base,clean,mut,suite,rc,tier,chk=sys.argv[1:]
 readme=open(os.path.join(dest,'README.md')).read() if os.path.exists(os.path.join(dest,'README.md')) else ''
 meta={"property":prop,"id":f"{prop}-{k}","base_commit":base,"demo_package_dir":pkg,
  "needs_to_manifest":"see README.md (written by the independent sub-agent that produced the change)",
  "confirmed":{"existing_suite_with_change":"passes" if suite=="none" else suite,"demo_without_change":clean,"demo_with_change":mut},
  "ran":[f"git worktree of /repo at {base}; git apply patch.diff; go build ./...; go test -count=1 ./...; demo placed in {pkg}/ and run with and without the change",
-        f"VERIF_REPO=<worktree> ./run {prop} {tier}"],
- "check_result":{"tier":tier,"exit":int(rc),"caught":rc=="1"}}
+        f"VERIF_REPO=<worktree> ./run {chk} {tier}"]}
+old=json.load(open(os.path.join(dest,'meta.json'))) if os.path.exists(os.path.join(dest,'meta.json')) else {}
+res=old.get("check_results",{})
+res[chk]={"tier":tier,"exit":int(rc),"caught":rc=="1"}
+meta["check_results"]=res
 json.dump(meta,open(os.path.join(dest,'meta.json'),'w'),indent=1)
 PY
 git -C /repo worktree remove --force "$WT"
